@@ -51,7 +51,7 @@ PROPS["C03"] = {
     "level": "exploration",
     "rule": "case = one seeded history (or, for case 0 of each shard, a large scenario: v3 image with a DIFAT sector / many small "
             "streams / v4 with several FAT sectors / v3 with more DIFAT growth / v4 with many small streams); after EVERY successful step the raw bytes are judged "
-            "by the independent rule checker (refparse.rs, about 60 rules). Eight shards first run a wide scenario (chain-shaped sibling tree of 70-1330 children: rules after creation, after each removal, after a reopen followed by 12-40 new entries - a new directory sector in v4 -, after remove_storage_all); one case in twenty is a seesaw history (a regular stream grows and shrinks by single sectors while other chains are begun and extended in between). non-trivial = history with >= 5 steps and >= 1 removal; "
+            "by the independent rule checker (refparse.rs, about 60 rules). Eight shards first run a wide scenario (chain-shaped sibling tree of 70-1330 children: rules after creation, after each removal, after a reopen followed by 12-40 new entries - a new directory sector in v4 -, after remove_storage_all); one case in twenty is a seesaw history (a regular stream grows and shrinks by single sectors while other chains are begun and extended in between); one history in five goes on from a well-formed file of another writer (synthesised: red nodes, directory gaps, permuted sectors). non-trivial = history with >= 5 steps and >= 1 removal; "
             "distinct = FNV-64 of (version, step list)",
     "assumptions": COMMON_ASSUMPTIONS + [
         "tolerated, counted as slack not violations: mini-stream container / MiniFAT chain longer than the root size needs; root start sector kept when the mini stream is empty",
@@ -61,7 +61,7 @@ PROPS["C03"] = {
     "quick": {"budget_s": 22},
     "thorough": {"budget_s": 300},
     "floors": {
-        "quick": {"images_checked": 100000, "images_with_difat_sector": 1, "images_with_two_difat_sectors": 1, "images_with_three_difat_sectors": 1, "seesaw_cases": 1000, "large_scenario.1": 1, "large_scenario.2": 1, "large_scenario.4": 1, "wide.rules_scenarios_passed": 8},
+        "quick": {"images_checked": 100000, "images_with_difat_sector": 1, "images_with_two_difat_sectors": 1, "images_with_three_difat_sectors": 1, "seesaw_cases": 1000, "start.foreign_layout": 3000, "large_scenario.1": 1, "large_scenario.2": 1, "large_scenario.4": 1, "wide.rules_scenarios_passed": 8},
         "thorough": {"images_checked": 1000000, "images_with_difat_sector": 2},
     },
 }
@@ -89,7 +89,7 @@ PROPS["C07"] = {
     "level": "exploration",
     "rule": "case = one seeded history with up to 6 long-lived handles on different streams interleaved with removals (steered, by the "
             "independent parser's view of the sibling trees, onto entries with two children while handles sit on their in-order "
-            "predecessor / successor / parent), creations reusing the freed slot, overwrites/resizes of other streams (payloads include runs of zeros covering whole aligned sectors, written over non-zero data; the root carries a CLSID and state bits in two cases of three; a third of the handles are opened under a letter-case variant, half are dropped dirty instead of flushed; one step in forty is an episode on scratch streams: a listing in progress while a handle grows a stream, or create_stream over a stream with a live handle while a lower directory slot is free); per-step "
+            "predecessor / successor / parent), creations reusing the freed slot, overwrites/resizes of other streams (payloads include runs of zeros covering whole aligned sectors, written over non-zero data; the root carries a CLSID and state bits in two cases of three; a third of the handles are opened under a letter-case variant, half are dropped dirty instead of flushed; a third of the histories go on from the reopened bytes after the sibling trees were repainted with a legal colouring that has red nodes; one step in forty is an episode on scratch streams: a listing in progress while a handle grows a stream, or create_stream over a stream with a live handle while a lower directory slot is free); per-step "
             "len/position check, and at checkpoints (all handles flushed) the full dump through fresh lookups AND through the "
             "independent parser is compared with the model. non-trivial = history with >= 1 two-child removal; distinct = FNV-64 of steps",
     "assumptions": COMMON_ASSUMPTIONS + ["a stream with a live handle is never removed or overwritten (outside the property)"],
@@ -97,7 +97,7 @@ PROPS["C07"] = {
     "quick": {"budget_s": 20},
     "thorough": {"budget_s": 300},
     "floors": {
-        "quick": {"two_child_removals": 5000, "two_child_removal_with_handle_on.predecessor": 1000, "creations_reusing_slot_with_live_handles": 5000,
+        "quick": {"start.repainted_red_nodes": 3000, "two_child_removals": 5000, "two_child_removal_with_handle_on.predecessor": 1000, "creations_reusing_slot_with_live_handles": 5000,
                   "handle_ops_after_slot_reuse": 5000, "checkpoints": 5000, "huge.scenarios_passed": 5, "listings_across_a_write": 10000, "recreations_under_a_handle": 10000},
         "thorough": {"two_child_removals": 50000, "two_child_removal_with_handle_on.predecessor": 10000},
     },
@@ -107,14 +107,14 @@ PROPS["C08"] = {
     "level": "exploration",
     "rule": "case = one seeded history over 5 stream names of create+write / remove / shrink / grow (lengths on both sides of 64, "
             "512, 4096, sector size), all payload bytes non-zero; after every growing set_len the gained range is read through the same "
-            "handle, after flush through a reopen in both modes, and must be all zero; a stale byte is classified by provenance; one in ten steps keeps a single handle open across long write / shrink / write at the new end / grow, or (a third of those) reads a little near the start, shrinks and grows with the position inside what remains and reads the gained bytes through the still-warm window; a third of the histories start from a synthesised foreign file with garbage behind every stream end and in all free (mini) sectors; one step in 25 shrinks a scratch stream through a second handle and grows it through the stale first one (gained bytes = everything beyond the real end). "
+            "handle, after flush through a reopen in both modes, and must be all zero; a stale byte is classified by provenance; one in ten steps keeps a single handle open across long write / shrink / write at the new end / grow, or (a third of those) reads a little near the start, shrinks and grows with the position inside what remains and reads the gained bytes through the still-warm window; a third of the histories start from a synthesised foreign file with garbage behind every stream end and in all free (mini) sectors; one step in 25 shrinks a scratch stream through a second handle and grows it through the stale first one (gained bytes = everything beyond the real end); a quarter of the histories run on a store that grants reads and writes only in part. "
             "non-trivial = history containing >= 1 checked grow; distinct = FNV-64 of steps",
     "assumptions": COMMON_ASSUMPTIONS,
     "checked_share": 0.6,
     "quick": {"budget_s": 15},
     "thorough": {"budget_s": 240},
     "floors": {
-        "quick": {"grows_checked": 20000, "grow.mini->mini": 5000, "grow.mini->regular": 3000, "grow.regular->regular": 500, "grow.empty->mini": 1000, "start.foreign_dirty_slack": 3000, "grows_after_shrink_through_another_handle": 10000, "grows_under_a_warm_window": 3000},
+        "quick": {"grows_checked": 20000, "grow.mini->mini": 5000, "grow.mini->regular": 3000, "grow.regular->regular": 500, "grow.empty->mini": 1000, "start.foreign_dirty_slack": 3000, "grows_after_shrink_through_another_handle": 10000, "grows_under_a_warm_window": 3000, "histories_on_a_short_io_store": 3000},
         "thorough": {"grows_checked": 200000},
     },
 }
